@@ -1,12 +1,12 @@
 //! Kani harnesses injected as `crate::boolean::verif_kani` (cfg(kani) only; see DESIGN.md 2.1).
 #![allow(dead_code, unused_imports, clippy::all)]
 pub mod common;
-mod h_nextafter;
-mod h_cf;
-mod h_ord;
-mod h_int;
-mod h_disp;
-mod h_div;
-mod h_pi;
-mod h_sweep;
-mod h_sa;
+pub mod h_nextafter;
+pub mod h_cf;
+pub mod h_ord;
+pub mod h_int;
+pub mod h_disp;
+pub mod h_div;
+pub mod h_pi;
+pub mod h_sweep;
+pub mod h_sa;
